@@ -719,6 +719,7 @@ func main() {
 			exhaustive(w, []string{"half", "diff"}, []int{2, 3, 6, 7}, probes, 4, *full)
 		} else {
 			exhaustive(w, ad, []int{2, 4, 6, 8}, probes, 4, *full)
+			exhaustive(w, ad, []int{2, 4, 6}, probes, 5, *full)
 			exhaustive(w, []string{"half", "diff"}, []int{2, 3, 6}, probes, 3, *full)
 		}
 	case "random":
@@ -740,7 +741,7 @@ func main() {
 		if thorough {
 			shapes(w, r, []int{1, 2, 3, 5, 8, 13, 21, 34, 64, 100, 257, 1000, 3000}, ad)
 		} else {
-			shapes(w, r, []int{1, 2, 3, 5, 8, 13, 33, 64, 300}, ad)
+			shapes(w, r, []int{1, 2, 3, 5, 8, 13, 33, 64, 160}, ad)
 		}
 	}
 }
